@@ -146,7 +146,7 @@ CONSTANTS
   CtxDictShared = {_b(sw['CtxDictShared'])}
   Cfgs = {{}}
   MaxNow = 100000
-  Outcomes = {{"ret", "exc", "base", "nores", "cerr", "falsy"}}
+  Outcomes = {{"ret", "exc", "base", "nores", "cerr", "falsy", "sysexit"}}
   AllowedViol = {{}}
 INVARIANT Progress
 POSTCONDITION Done
